@@ -1572,9 +1572,14 @@ class CompiledType(compiler.CompiledType):
 
 
 def get_tag_no_encoding(member):
+    """Sort key giving the canonical tag order: class first, then tag
+    number. A longer (minimal) tag encoding is a higher number.
+
+    """
+
     value = (member.tag[0] & ~Encoding.CONSTRUCTED)
 
-    return bytearray([value]) + member.tag[1:]
+    return (value & 0xc0, len(member.tag), bytearray([value]) + member.tag[1:])
 
 
 class Compiler(compiler.Compiler):
